@@ -132,3 +132,16 @@ MUTANTS += [
     M('C17', 'dollar-not-escaped-in-import', 'schemaless.py', "result.append('%import ' + pkgname.replace('$', '$$'))", "result.append('%import ' + pkgname)"),
     M('C17', 'define-silently-dropped', 'schemaless.py', "        raise NotImplementedError('defines are not supported')", "        pass"),
 ]
+
+MUTANTS += [
+    # ---------------- C19
+    M('C19', 'loadURL-no-with', 'loader.py', "        with self.openResource(url) as r:\n            return self.loadResource(r)", "        r = self.openResource(url)\n        v = self.loadResource(r)\n        r.close()\n        return v"),
+    M('C19', 'loadFile-no-with', 'loader.py', "        with self.createResource(file, url) as r:\n            return self.loadResource(r)", "        r = self.createResource(file, url)\n        v = self.loadResource(r)\n        r.close()\n        return v"),
+    M('C19', 'include-no-with', 'loader.py', "        with self.openResource(url) as r:\n            self._parse_resource(section, r, defines)", "        r = self.openResource(url)\n        self._parse_resource(section, r, defines)\n        r.close()"),
+    M('C19', 'cfg-import-no-with', 'loader.py', "        with self.openResource(url) as resource:\n            ZConfig.schema.parseComponent(resource, self._loader, schema)", "        resource = self.openResource(url)\n        ZConfig.schema.parseComponent(resource, self._loader, schema)\n        resource.close()"),
+    M('C19', 'loadComponent-no-with', 'schema.py', "        with self._loader.openResource(src) as r:\n            xml.sax.parse(r.file, parser)\n\n    def end_import", "        r = self._loader.openResource(src)\n        xml.sax.parse(r.file, parser)\n        r.close()\n\n    def end_import"),
+    M('C19', 'extendSchema-no-with', 'schema.py', "        with self._loader.openResource(src) as r:\n            xml.sax.parse(r.file, parser)\n\n    def end_schema", "        r = self._loader.openResource(src)\n        xml.sax.parse(r.file, parser)\n        r.close()\n\n    def end_schema"),
+    M('C19', 'stream-close-not-in-finally', 'loader.py', "            try:\n                data = file.read()\n            finally:\n                file.close()", "            data = file.read()\n            if data:\n                file.close()"),
+    M('C19', 'close-does-not-mark', 'loader.py', "            self.file = None\n            self.closed = True", "            self.file = None\n            self.closed = bool(self.url)"),
+    M('C19', 'include-last-resource-kept', 'loader.py', "    def __exit__(self, t, v, tb):\n        self.close()", "    def __exit__(self, t, v, tb):\n        if t is None or not issubclass(t, ValueError):\n            self.close()"),
+]
